@@ -61,6 +61,10 @@ type builtChain struct {
 	Why    string
 	TLS    *tls.Certificate // leaf + key for handshakes (nil for shapes without a usable key)
 	Parsed bool
+	// for well-formed chains: the certificate key and the raw value of the key
+	// extension (public material an impersonator can copy byte for byte)
+	certPriv crypto.Signer
+	extValue []byte
 }
 
 // identity public key in the protobuf wire form (field 1 varint key type
@@ -172,6 +176,7 @@ func build(spec chainSpec, pool []*keys.Identity, rng *rand.Rand) *builtChain {
 	switch spec.Variant {
 	case "valid", "valid-critical":
 		b.Raw, b.Class, b.Why = [][]byte{self(ext(good))}, mustAccept, "single self-signed cert, binding signed by K over the cert key"
+		b.certPriv, b.extValue = ck.priv, good
 	case "valid-pkg-extension":
 		e, err := p2ptls.GenerateSignedExtension(K.Priv, pub)
 		if err != nil {
@@ -179,6 +184,7 @@ func build(spec chainSpec, pool []*keys.Identity, rng *rand.Rand) *builtChain {
 		}
 		e.Critical = spec.Critical
 		b.Raw, b.Class, b.Why = [][]byte{self([]pkix.Extension{e})}, mustAccept, "single self-signed cert with the package's own GenerateSignedExtension"
+		b.certPriv, b.extValue = ck.priv, e.Value
 	case "ext-embeds-other-key":
 		b.Raw, b.Why = [][]byte{self(ext(refBinding(K, O, bindPrefix, pub)))}, "extension embeds the public key of O but is signed by K"
 	case "ext-signed-by-other-key":
@@ -266,6 +272,10 @@ func build(spec chainSpec, pool []*keys.Identity, rng *rand.Rand) *builtChain {
 		b.TLS = &tls.Certificate{Certificate: b.Raw, PrivateKey: leafKey}
 	}
 	return b
+}
+
+func tlsCert(raw [][]byte, leaf crypto.Signer) *tls.Certificate {
+	return &tls.Certificate{Certificate: raw, PrivateKey: leaf}
 }
 
 func (b *builtChain) witness() map[string]any {
